@@ -1,9 +1,9 @@
 """
 Vec: element of the free real module over named atoms, coefficients are scalars (Fraction / float / SNum).
 
-Used for dtype_u / dtype_f values. Mirrors the aliasing behaviour of numpy-based meshes: `+=`, `-=`, `*=` are
-IN PLACE (so that a missing copy in the code under verification shows up exactly as it would on a mesh), all other
-operators return new objects. An identity proved coefficient-wise over independent atoms holds in every vector
+Used for dtype_u / dtype_f values. Mirrors the aliasing behaviour of pySDC's `mesh`: because mesh.__array_ufunc__ drops
+`out=`, augmented assignment (`+=`, `-=`, `*=`) REBINDS the name to a new object and never modifies the operand (checked
+natively: `b = a; b += 2` leaves `a` unchanged); only slice assignment `u[:] = v` is in place. All operators return new objects. An identity proved coefficient-wise over independent atoms holds in every vector
 space; the vector-space laws of the real data types are C13's business and are assumed here.
 """
 
@@ -77,10 +77,12 @@ class Vec:
         return self
 
     def __iadd__(self, o):
-        return self._iadd(o, 1)
+        r = Vec(self)
+        return r._iadd(o, 1)
 
     def __isub__(self, o):
-        return self._iadd(o, -1)
+        r = Vec(self)
+        return r._iadd(o, -1)
 
     def __add__(self, o):
         r = Vec(self)
@@ -117,16 +119,7 @@ class Vec:
     __rmul__ = __mul__
 
     def __imul__(self, o):
-        if not _is_scalar(o):
-            return NotImplemented
-        o = _exact(o)
-        for a in list(self.c):
-            nv = self.c[a] * o
-            if _is_zero(nv):
-                del self.c[a]
-            else:
-                self.c[a] = nv
-        return self
+        return self.__mul__(o)
 
     def __truediv__(self, o):
         if not _is_scalar(o):
